@@ -260,13 +260,8 @@ fn units(run: &Run) -> Vec<Unit> {
     // the same worker counts with a consumer that falls behind as far as it can (base schedule 'fair
     // workers, consumer last': the channel is full and a further worker waits at its send whenever the
     // consumer moves), with more items than any buffer sized by the thread count would hold
-    // (worker counts around 2^4, one above 2^5, thorough also around 2^6 and one above 2^7)
-    let mut lagging = tu_verif::enumerate::threshold_lengths(if quick { 5 } else { 6 });
-    lagging.push(33);
-    if !quick {
-        lagging.push(129);
-    }
-    for w in lagging {
+    // (worker counts around 2^4 and 2^5, thorough also around 2^6 and 2^7)
+    for w in tu_verif::enumerate::threshold_lengths(if quick { 5 } else { 7 }) {
         for n in [w + 2, 2 * w + 3, 4 * w + 1] {
             u.push(Unit { mode: "lagging-consumer", w, n, bound: Some(0), part: None, spin: 0, hint: 0, work: false });
         }
